@@ -42,7 +42,7 @@ class C01(flatcheck.FlatCheck):
     prop = 'C01'
     manifest = dict(
         level='proof', design='DESIGN.md 4/C01',
-        text="Lean 4 theorems C01_step / C01_history: every trace of the flat engine model, for all configurations, histories and condition valuations, is accepted by the documented-order acceptor; the model is tied to /repo by trace equality on generated cases and the same compiled acceptor judges the implementation's traces.",
+        text="Lean 4 theorems C01_step / C01_history: every trace of the flat engine model, for all configurations, histories and condition valuations, is accepted by the documented-order acceptor; the model is tied to /repo by trace equality on generated cases and the same compiled acceptor judges the implementation's traces (also with may_ calls interleaved, which must leave no trace); the asyncio class is compared stage by stage with the synchronous one on the same descriptions (plain / coroutine / suspending callbacks).",
         note="Trusted: Lean kernel (+propext, Quot.sound), hand-written model Model/Core.lean, acceptor Model/Spec/C01.lean, harness recorders; theorem hypotheses NoRaise/NoCmds/WF (raising callbacks and re-entrancy are C04/C05).",
         technique="Lean 4 proof (induction over histories) + differential correspondence + verified trace monitor")
     level = 'proof'
